@@ -223,6 +223,26 @@ def run_case(case: dict, driver):
                 impl.append(str(du.count_data_added_since(-math.inf if since is None
                                                          else float(F(since)))))
             trace.append((kind, op[3]))
+        elif kind == "new_session":
+            # the same trainer objects are wired to a fresh set of data users (a second launch() in one
+            # process builds new DataUsersDict / collectors and attaches them): from now on every decision
+            # looks at the new buffers
+            buffers = {}
+            with warnings.catch_warnings():
+                warnings.simplefilter("ignore")
+                for u in case["users"]:
+                    name, cap, q = u["name"], u["cap"], u["q"]
+                    buffers[name] = SequentialBuffer(cap) if q == "cap" else QBuffer(cap, q)
+                    su = spec_users[name]
+                    su["delivered"], su["pending"], su["total"] = [], [], 0
+                users = DataUsersDict.from_data_buffers(buffers)
+            collectors = {n: users.data_collectors_dict.acquire(n) for n in buffers}
+            trainers.attach_data_users(users)
+            for st_ in spec_tr:
+                st_["seen"] = None      # delivery counts of the previous session mean nothing for the new buffers
+            lines.append("trainer reattach")
+            impl.append("ok")
+            trace.append((kind, ""))
         elif kind == "thread_pause_resume":
             # the training thread's own pause/resume cycle (hooks forwarded to the trainers) between
             # two ticks: it must not disturb whose turn it is — the model has no such operation,
@@ -387,8 +407,10 @@ def gen_case(rng) -> dict:
                 ops.append(["tick", gap, {"user": f"u{rng.randrange(nu)}", "adv": rng.choice(["1/4", "1", "0"])}])
             else:
                 ops.append(["tick", gap])
-        elif r < 0.85:
+        elif r < 0.83:
             ops.append(["thread_pause_resume", gap])
+        elif r < 0.85:
+            ops.append(["new_session", gap])
         elif r < 0.92:
             what = rng.choice(["len", "count", "count", "data"])
             since = None if rng.random() < 0.2 else str(F(rng.randrange(0, 80), 4))
@@ -540,6 +562,7 @@ def replay(ctx: Ctx, payload: dict) -> SuiteResult:
 
 
 if __name__ == "__main__":
+    import gentie
     setup_repo_path()
     try:
         code = run_check(
@@ -550,7 +573,7 @@ if __name__ == "__main__":
                                "Pamiq.Trainer.countSince_sorted", "Pamiq.Trainer.update_window",
                                "Pamiq.Trainer.runs_iff_window",
                                "Pamiq.Trainer.marker_is_last_positive"],
-            suites=[suite_corpus, suite_exhaustive, suite_random, suite_malformed],
+            suites=[gentie.suite_for("C13"), suite_corpus, suite_exhaustive, suite_random, suite_malformed],
             search=search, replay=replay,
             assumptions=["IEEE-754 rounding is not modelled: clock values dyadic; compared for equality",
                          "the system clock never steps backwards (C06), so timestamps are non-decreasing",
